@@ -117,7 +117,7 @@ def main():
             na.append({"property_id": pid, "reason": NOT_APPLICABLE.get(pid, NOT_YET)})
             continue
         c = dict(c)
-        c["text"] = c["text"] + ADDENDA.get(pid, "") + ADDENDA3.get(pid, "") + ADDENDA4.get(pid, "") + ADDENDA5.get(pid, "")
+        c["text"] = c["text"] + ADDENDA.get(pid, "") + ADDENDA3.get(pid, "") + ADDENDA4.get(pid, "") + ADDENDA5.get(pid, "") + ADDENDA7.get(pid, "")
         if pid in NOTE_FIXES:
             a, b = NOTE_FIXES[pid]
             c["note"] = c["note"].replace(a, b)
@@ -230,11 +230,22 @@ ADDENDA5 = {
  "C19": _RT + " No tls.Config of package astra enables session resumption (the custom verification runs only in full handshakes).",
 }
 
+# seventh-round rules (DESIGN.md section 4, "Rules added after the seventh round")
+ADDENDA7 = {
+ "C05": " A re-send the policy directs at the same host (next=false) is sent to the current host before the plan is consulted, whatever re-prepare bookkeeping the request carries.",
+ "C11": " A slice of the frame body (BytesSince) starts at a position the same reader reported, never at an offset computed from lengths (which is relative to the message, not to the body).",
+ "C13": " The header flags of a locally built reply are not derived from the flags of the request frame (a refused or pre-STARTUP frame may carry any flags; the reply must be encodable without a negotiated compressor).",
+ "C14": " Every way the backend handshake of a connection with an event handler can succeed (READY, AUTH_SUCCESS at once or after challenges) has sent REGISTER exactly once (path simulation of the handshake steps).",
+ "C17": " BytesSince start positions (shared with C11).",
+ "C18": " Confinement, for the two objects the code leaves unlocked on purpose: a plain field of the per-client connection object or of the cluster object that is written after construction is accessed only in functions reached from the one goroutine serving that object (the connection's reader loop; the cluster's control loop, started once by the constructor) and from no other goroutine entry (backend readers, event fan-out, timers, `go` statements); writes guarded by a start-up flag every goroutine-side caller passes as false, and the constructor's calls before the loop is started, count as construction.",
+ "C20": " The start-up connection attempt offers every contact point the configured protocol version, never a version negotiated with an earlier contact point; a reconnect offers the negotiated one (path simulation of Cluster.connect for both values of its start-up flag).",
+}
+
 NOTE_FIXES = {
  "C01": ("; the residual window in ClientConn.Send where a request stays registered after its write failed", "; a client that stops reading while staying connected (recorded C17 finding)"),
  "C08": ("version/compression of the replayed PREPARE frame", "whether the backend assigns the same id to the re-prepared statement"),
  "C15": ("fairness counts, uint32 wrap, schedules", "fairness counts, consecutive plans at the 2^32 counter boundary, schedules"),
- "C18": ("never-locked state (client.codec/keyspace, Cluster state confined to one goroutine)", "never-locked state that relies on confinement (client.keyspace/compression, Cluster state confined to one goroutine)"),
+ "C18": ("never-locked state (client.codec/keyspace, Cluster state confined to one goroutine)", "unlocked state other than the fields of the client connection object and of the cluster object (whose confinement to one goroutine is decided through the call graph, not through an execution)"),
 }
 
 NOT_APPLICABLE = {}
